@@ -139,8 +139,16 @@ func c07(c *Ctx) {
 				maxArg, removed = ip.max, ip.removed
 			}
 			n, isC := core.ConstInt(maxArg)
-			r.Check(isC && n == 10, "R2.replacements-growth", m.key(w, "bounded-push"), p.Pos(w.Store.Pos()),
-				"replacements grow only through a push bounded by len(list) < 10", fmt.Sprintf("replacement list bound is %v, expected the constant 10", n))
+			okBound := isC && n == 10
+			boundTxt := fmt.Sprint(n)
+			if !isC && maxArg != nil {
+				// a setting instead of the constant: every value it can take is within 1..10
+				rg := p.RangeOf(maxArg, w.Store.Block())
+				okBound = rg.HasHi && rg.Hi <= 10 && rg.HasLo && rg.Lo >= 1
+				boundTxt = rg.String()
+			}
+			r.Check(okBound, "R2.replacements-growth", m.key(w, "bounded-push"), p.Pos(w.Store.Pos()),
+				"replacements grow only through a push bounded by len(list) < 10 (or a setting within 1..10)", fmt.Sprintf("replacement list bound is %s, expected the constant 10 (or a value that cannot exceed it)", boundTxt))
 			// displaced node gives its IP back
 			if isCall && call.Referrers() != nil {
 				for _, rf := range *call.Referrers() {
@@ -481,6 +489,7 @@ func c07(c *Ctx) {
 
 	// ---------------- R4 mapping distance -> bucket
 	c07mapping(c)
+	errorsExamined(c, "R7.errors-examined", "routing table", []string{"portalwire"}, "(*portalwire.Table).", "(*portalwire.tableRevalidation).", "(*portalwire.bucket).", "(*portalwire.revalidationList).")
 }
 
 // c07mapping checks the function that indexes Table.buckets with a computed index.
